@@ -12,7 +12,7 @@ EXT = dict(server_name=0, status_request=5, supported_groups=10, ec_point_format
            delegated_credentials=34, session_ticket=35, supported_versions=43, psk_key_exchange_modes=45,
            signature_algorithms_cert=50, key_share=51, next_protocol_negotiation=13172,
            application_layer_protocol_settings=17513, channel_id=30032, renegotiation_info=65281,
-           key_share_reserved=40, short_record_header=65280)
+           key_share_reserved=40)
 
 
 # ---- RFC 5246 6.2.1: struct { ContentType type; ProtocolVersion version; uint16 length; opaque fragment[length]; }
@@ -136,6 +136,13 @@ ext_spec('TlsExtensionRecordSizeLimit', 'record_size_limit', lambda o: u16(o.f['
 ext_spec('TlsExtensionEncryptThenMAC', 'encrypt_then_mac', lambda o: cat())                                  # RFC 7366 2
 ext_spec('TlsExtensionExtendedMasterSecret', 'extended_master_secret', lambda o: cat())                      # RFC 7627 5.1
 ext_spec('TlsExtensionSessionTicket', 'session_ticket', lambda o: cat(o.f['session_ticket']))               # RFC 5077 3.2
+# extensions whose extension_data is empty: RFC 6066 3 (server_name in a server hello), RFC 6962 3.3.1 (SCT request of a
+# client), draft-balfanz-tls-channelid (client offer). The short record header experiment is NOT stated: its type number is not
+# in a document the author can cite from memory (a first attempt with 65280 was a false alarm of the specification; the data
+# table says 65283)
+ext_spec('TlsExtensionServerNameServer', 'server_name', lambda o: cat())
+ext_spec('TlsExtensionSignedCertificateTimestampClient', 'signed_certificate_timestamp', lambda o: cat())
+ext_spec('TlsExtensionChannelId', 'channel_id', lambda o: cat())
 # RFC 8472 2: struct { TB_ProtocolVersion token_binding_version; TokenBindingKeyParameters key_parameters_list<1..2^8-1> }
 ext_spec('TlsExtensionTokenBinding', 'token_binding',
          lambda o: cat(u8(o.f['protocol_version'].f['major']), u8(o.f['protocol_version'].f['minor']), spec_of(o.f['parameters'])))
@@ -217,3 +224,19 @@ def tls_client_hello(o):
         return v.e
     return handshake(1, client_hello_body(o, codes_of(o.f['cipher_suites']), flag(o.f['fallback_scsv']),
                                           flag(o.f['empty_renegotiation_info_scsv'])))
+
+
+# ---- SSL 2.0 (Hickman 1995) ERROR message body: ERROR-CODE as two octets, MSB first (the message type octet belongs to the
+#      record); error codes from the specification-owned table
+@spec('SslErrorMessage')
+def ssl_error(o):
+    from spec.tables import TABLES
+    t = o.f['error_type']
+    if isinstance(t, V.SEnum):
+        missing = [m.name for m in t.cls if m.name not in TABLES['SslErrorType']]
+        if missing:
+            raise NoSpec('SSL 2.0 error codes %s' % missing)
+        return u16(V.enum_table(t.cls, t.idx, lambda m: TABLES['SslErrorType'][m.name]))
+    if getattr(t, 'name', None) in TABLES['SslErrorType']:
+        return u16(TABLES['SslErrorType'][t.name])
+    raise NoSpec('SSL 2.0 error code')
